@@ -1,23 +1,38 @@
 ----------------------------- MODULE MC_SigCache -----------------------------
 (* Design-level check of C11: for every reachable cache state and every request from a small *)
-(* universe (multi-signatures over 2 members, claimed ids, real signers, two messages), the   *)
-(* cached verdict equals the uncached one.  KeyMode = "old" is the negative control: the key  *)
-(* without the claimed participants must be refuted.                                          *)
+(* universe (multi-signatures over 2 members, claimed ids, real signers, two messages; single  *)
+(* and batch verification), the cached verdict equals the uncached one.                        *)
+(* Negative controls (must be refuted):                                                        *)
+(*   KeyMode = "old"     the key without the claimed participants (D4)                          *)
+(*   KeyMode = "shared"  single and batch verification in one key space (D19): the digest of a  *)
+(*                       batch is the hash of a byte string, and that byte string is also a      *)
+(*                       possible single message (Pre(b) below)                                  *)
 EXTENDS SigCache, Cert, TLC
 CONSTANTS N, Capacity, KeyMode
 M1 == BlockMsg("B1")
 M2 == BlockMsg("B2")
+\* batches over the two members; Pre(b) is the single message whose hash is the digest of batch b
+Batches == {[i \in 1..N |-> IF i = 1 THEN M1 ELSE M2], [i \in 1..N |-> IF i = 1 THEN M2 ELSE M1]}
+Pre(b) == <<"P", 0, 0, b>>
+Singles == {M1, M2} \cup {Pre(b) : b \in Batches}
 Entry == {<<c, s, m>> : c \in 1..N, s \in 1..N, m \in {M1, M2}}
 Sigs == {[t |-> "multi", e |-> e] : e \in UNION {[1..k -> Entry] : k \in 1..2}}
-Requests == Sigs \X {M1, M2}
 \* the byte identity of a multi-signature is the sequence of its atoms
 BytesOf(sig) == [i \in 1..Len(sig.e) |-> <<sig.e[i][2], sig.e[i][3]>>]
 ClaimedSeq(sig) == [i \in 1..Len(sig.e) |-> sig.e[i][1]]
-KeyOf(sig, msg) == IF KeyMode = "full" THEN <<msg, ClaimedSeq(sig), BytesOf(sig)>> ELSE <<msg, <<>>, BytesOf(sig)>>
+\* what is hashed: a batch and its pre-image hash alike
+Digest(kind, x) == IF kind = "batch" THEN <<"batch-digest", x>>
+                   ELSE IF x[1] = "P" THEN <<"batch-digest", x[4]>> ELSE <<"digest", x>>
+KeyOf(kind, sig, x) ==
+    CASE KeyMode = "full" -> <<kind, Digest(kind, x), ClaimedSeq(sig), BytesOf(sig)>>          \* the code after D19
+      [] KeyMode = "shared" -> <<"any", Digest(kind, x), ClaimedSeq(sig), BytesOf(sig)>>       \* before
+      [] OTHER -> <<kind, Digest(kind, x), <<>>, BytesOf(sig)>>                                 \* "old": participants dropped
+Uncached(kind, sig, x) == IF kind = "batch" THEN BatchVerify(sig, x, N) ELSE Verify(sig, x, N)
+Requests == ({"single"} \X Sigs \X Singles) \cup ({"batch"} \X Sigs \X Batches)
 VARIABLE entries
 Init == entries = <<>>
-DoVerify(sig, msg) == entries' = CachedNext(entries, KeyOf(sig, msg), Verify(sig, msg, N), Capacity)
-Next == \E r \in Requests : DoVerify(r[1], r[2])
+Do(r) == entries' = CachedNext(entries, KeyOf(r[1], r[2], r[3]), Uncached(r[1], r[2], r[3]), Capacity)
+Next == \E r \in Requests : Do(r)
 Spec == Init /\ [][Next]_entries
-Transparent == \A r \in Requests : CachedVerdict(entries, KeyOf(r[1], r[2]), Verify(r[1], r[2], N)) = Verify(r[1], r[2], N)
+Transparent == \A r \in Requests : CachedVerdict(entries, KeyOf(r[1], r[2], r[3]), Uncached(r[1], r[2], r[3])) = Uncached(r[1], r[2], r[3])
 =============================================================================
